@@ -271,7 +271,7 @@ func sentAnswer(r *rand.Rand, want int) Answer {
 
 func okShape(r *rand.Rand, provider string) string {
 	if provider == "openai" {
-		return []string{"str", "parts", "split", "model-role", "multi"}[r.Intn(5)]
+		return []string{"str", "parts", "split", "model-role", "multi", "earlier-good-final"}[r.Intn(6)]
 	}
 	return []string{"g1", "g1", "gsplit", "gmulti"}[r.Intn(4)]
 }
@@ -418,6 +418,18 @@ func render(provider string, a Action, kind string) (status int, body []byte, se
 		ans = a.Sent
 	}
 	good := wrap(provider, a.Shape, ans.Text, a.Variant)
+	if a.Shape == "earlier-good-final" && provider == "openai" {
+		// several assistant messages: an earlier one that would pass, then the FINAL answer
+		earlier := `{"verdict":"MATCH","evidence":"Message is accurate."}`
+		if kind == "sentinel" {
+			earlier = `{"safe":true,"analysis":"No injection found."}`
+		}
+		good = mustJSON(m{"id": "resp_2", "items": []any{
+			m{"type": "message", "role": "assistant", "content": earlier},
+			m{"type": "reasoning", "role": "", "content": "on reflection"},
+			m{"type": "message", "role": "assistant", "content": ans.Text},
+		}})
+	}
 	status = 200
 	switch a.Transport {
 	case "ok":
